@@ -229,3 +229,23 @@ pub fn transform_varblocks(
         );
     }
 }
+
+/// Verification hook H3: single-varblock inverse transform through the same runtime dispatch as
+/// `transform_varblocks` (SSE4.1 variant if detected, else SSE2). Returns the variant used.
+#[cfg(jxl_oxide_verif)]
+pub fn verif_transform(coeff: &mut MutableSubgrid<'_>, dct_select: TransformType) -> &'static str {
+    if is_x86_feature_detected!("sse4.1") {
+        unsafe {
+            transform_x86_64_sse41(coeff, dct_select);
+        }
+        return "sse4.1";
+    }
+    transform_x86_64_sse2(coeff, dct_select);
+    "sse2"
+}
+
+/// Verification hook H3: the SSE2 (baseline x86_64) variant, regardless of detected features.
+#[cfg(jxl_oxide_verif)]
+pub fn verif_transform_sse2(coeff: &mut MutableSubgrid<'_>, dct_select: TransformType) {
+    transform_x86_64_sse2(coeff, dct_select)
+}
